@@ -480,6 +480,45 @@ def _decode(repo, rep):
     rep.check(bool(hexb) and both, "R06.3", sub.qualname, "both spellings "
               "of the marker select the hexadecimal conversion",
               construct="hex-branch-case", where=L.where(sub))
+    # a reference whose digits are no number, or whose number is no code
+    # point (&#xzz; &#xFFFFFFFF; &#1114112;), is text: the conversions are
+    # guarded (int() raises ValueError, chr() ValueError / OverflowError) and
+    # the reference is left as written -- decoding never fails the compile
+    # (conversions of the reference's own text; chr() of a code point
+    # taken from the entity table cannot fail)
+    ints = [n for n in ast.walk(sub.node) if isinstance(n, ast.Call)
+            and src(n.func) == "int" and any(
+                isinstance(x, ast.Call) and src(x.func).endswith(".group")
+                for x in ast.walk(L.inline_locals(sub.node, n)))]
+    convs = ints + [n for n in ast.walk(sub.node) if isinstance(n, ast.Call)
+                    and src(n.func) == "chr" and any(
+                        x in ints for x in ast.walk(n))]
+    unguarded = []
+    for n in convs:
+        a_ = getattr(n, "_parent", None)
+        ok_ = False
+        prev = n
+        while a_ is not None and a_ is not sub.node:
+            if isinstance(a_, ast.Try) and any(
+                    prev is st or any(prev is x for x in ast.walk(st))
+                    for st in a_.body):
+                caught = " ".join(src(h.type) if h.type is not None
+                                  else "BaseException" for h in a_.handlers)
+                if ("ValueError" in caught and "OverflowError" in caught) \
+                        or "Exception" in caught or "ArithmeticError" in \
+                        caught and "ValueError" in caught:
+                    ok_ = True
+            prev, a_ = a_, getattr(a_, "_parent", None)
+        if not ok_:
+            unguarded.append(n)
+    rep.check(bool(convs) and not unguarded, "R06.3", sub.qualname, "the "
+              "numeric conversions of a character reference are guarded "
+              "(ValueError, OverflowError): a malformed reference stays as "
+              "written instead of failing the compilation",
+              construct="reference-conversion-guarded",
+              where=L.where(sub, unguarded[0].lineno) if unguarded
+              else L.where(sub),
+              detail="; ".join(src(n)[:40] for n in unguarded[:3]))
     # the five names every XML document may use -- lt gt amp quot apos --
     # are decoded; the HTML 4 table of the standard library has no 'apos'
     mod = sub.module
